@@ -58,12 +58,13 @@ macro_rules! digraph {
 			edges.clear();
 			let mut g = Graph::<$K, (), ()>::new();
 			$(
+				let key: $K = $NODE;
 				$(
 					$(
-						edges.push(($NODE, $EDGE));
+						edges.push((key.clone(), $EDGE));
 					)*
 				)?
-				let n = digraph_node!($NODE);
+				let n = digraph_node!(key);
 				g.insert(n);
 			)*
 			for (s, t) in edges {
@@ -93,12 +94,13 @@ macro_rules! digraph {
 			edges.clear();
 			let mut g = Graph::<$K, $N, ()>::new();
 			$(
+				let key: $K = $NODE;
 				$(
 					$(
-						edges.push(($NODE, $EDGE));
+						edges.push((key.clone(), $EDGE));
 					)*
 				)?
-				let n = digraph_node!($NODE, $NPARAM);
+				let n = digraph_node!(key, $NPARAM);
 				g.insert(n);
 			)*
 			for (s, t) in edges {
@@ -128,12 +130,13 @@ macro_rules! digraph {
 			edges.clear();
 			let mut g = Graph::<$K, (), $E>::new();
 			$(
+				let key: $K = $NODE;
 				$(
 					$(
-						edges.push(($NODE, $EDGE, $EPARAM));
+						edges.push((key.clone(), $EDGE, $EPARAM));
 					)*
 				)?
-				let n = digraph_node!($NODE);
+				let n = digraph_node!(key);
 				g.insert(n);
 			)*
 			for (s, t, param) in edges {
@@ -163,12 +166,13 @@ macro_rules! digraph {
 			edges.clear();
 			let mut g = Graph::<$K, $N, $E>::new();
 			$(
+				let key: $K = $NODE;
 				$(
 					$(
-						edges.push(($NODE, $EDGE, $EPARAM));
+						edges.push((key.clone(), $EDGE, $EPARAM));
 					)*
 				)?
-				let n = digraph_node!($NODE, $NPARAM);
+				let n = digraph_node!(key, $NPARAM);
 				g.insert(n);
 			)*
 			for (s, t, param) in edges {
